@@ -254,8 +254,7 @@ def case_step(log, kind, err_all=False, readback=False):
             f_disk, why = _disk_formula(fs, root, D2)
             v = prove_formula(f_disk, "%s: files on disk represent exactly the dict %s" % (desc, why))
             decide(v, key="%s:disk" % kind, replay=(MOD, "replay_step", dict(kw, aspect="disk")))
-            f_view = _view_formula(eko, D2, Vlow, Vex, none_loaded=kind in ("unload", "items"),
-                                   must_load=j if (kind == "set" or (kind == "get" and ret[0] == "value")) else None)
+            f_view = _view_formula(eko, D2, Vlow, Vex, none_loaded=kind in ("unload", "items"))
             if kind == "del" and j in V:
                 f_view = z3.And(f_view, z3.BoolVal(eko.operators.cache.get(Target.from_ep(KEYS[j])) is None))
             v = prove_formula(f_view, "%s: visible keys within the dict, nothing lost, loaded values equal the dict" % desc)
@@ -367,10 +366,10 @@ def case_approx(log, n, defaults=False, signed=False):
             if exc is not None:
                 goal = z3.Or([z3.BoolVal(False)] + [z3.And(m[a], m[b]) for a in range(n) for b in range(a + 1, n)])
                 v = prove_formula(goal, "%s raised ValueError: at least two stored points are within tolerance" % desc)
-                decide(v, key="EKO.approx:ambiguous", replay=(MOD, "replay_approx", kw), sampler=_approx_sampler(n))
+                decide(v, key="EKO.approx:ambiguous", replay=(MOD, "replay_approx", kw), sampler=_approx_sampler(n), nrandom=2)
             elif got is None:
                 v = prove_formula(z3.And([z3.BoolVal(True)] + [z3.Not(mi) for mi in m]), "%s returned None: no stored point is within tolerance" % desc)
-                decide(v, key="EKO.approx:none", replay=(MOD, "replay_approx", kw), sampler=_approx_sampler(n))
+                decide(v, key="EKO.approx:none", replay=(MOD, "replay_approx", kw), sampler=_approx_sampler(n), nrandom=2)
             else:
                 hit = [i for i in range(n) if got[0] is ss[i]]
                 if len(hit) != 1 or got[1] != 4 or not same[hit[0]]:
@@ -379,7 +378,7 @@ def case_approx(log, n, defaults=False, signed=False):
                     i = hit[0]
                     goal = z3.And([m[i]] + [z3.Not(m[k]) for k in range(n) if k != i])
                 v = prove_formula(goal, "%s returned a point: it is a stored point, within tolerance, and the only one" % desc)
-                decide(v, key="EKO.approx:unique", replay=(MOD, "replay_approx", kw), sampler=_approx_sampler(n))
+                decide(v, key="EKO.approx:unique", replay=(MOD, "replay_approx", kw), sampler=_approx_sampler(n), nrandom=2)
             log.twin("tolerances and distinct scales")
             log.collect_ctx()
 
@@ -609,8 +608,8 @@ def replay_approx(point, n, same, defaults):
     for s, nf in stored:
         lhs = abs(Fraction(x) - Fraction(s))
         rhs = Fraction(at) + Fraction(rt) * abs(Fraction(s))
-        if nf == 4 and abs(lhs - rhs) <= Fraction(1, 10**9) * max(rhs, Fraction(1, 10**30)):
-            return None
+        if nf == 4 and abs(lhs - rhs) <= Fraction(8, 10**16) * (abs(Fraction(x)) + abs(Fraction(s)) + Fraction(at)):
+            return None  # within a few ulps of the boundary
     if real != want:
         return {"detail": "approx((%r, 4), rtol=%r, atol=%r) on stored points %r gives %r; specification |x-s| <= atol + rtol*|s| gives %r" % (x, rt, at, stored, real, want)}
     return None
